@@ -651,6 +651,7 @@ Lemma allocate_path s coins s' : WFr s -> len4 coins ->
 Proof.
   intros (Ha & Ht & Hp) Lc H. unfold allocate_incentive in H.
   destruct (negb (has_position (a_pool s))); [discriminate|].
+  destruct (p_liq (a_pool s) <=? 0); [discriminate|].
   step_res H. rename x into g. apply of_opt_ok in E.
   step_res H. rename x into v. apply of_opt_ok in E0.
   assert (Lg : len4 g) by (eapply vquo_len4; [|exact E]; unfold len4; rewrite map_length; exact Lc).
@@ -1237,4 +1238,446 @@ Proof.
   rewrite Hneg. cbn [vle].
   assert (Hle : (Z.abs (dtrunc_int ab0) <=? p0) && ((Z.abs (dtrunc_int aq0) <=? p1) && ((0 <=? p2) && ((0 <=? p3) && true))) = true) by lia.
   rewrite Hle. cbn [negb]. eexists. reflexivity.
+Qed.
+
+(* message-level rounding direction: create a position and withdraw it completely right away:
+   the provider never gets back more than was charged *)
+Theorem roundtrip_no_profit s sender lo up base quote mb mq s1 pid ab aq l s2 wb wq :
+  create_position s sender lo up base quote mb mq = Ok (s1, (pid, ab, aq, l)) ->
+  decrease_liquidity s1 sender pid l = Ok (s2, wb, wq) ->
+  0 <= wb <= ab /\ 0 <= wq <= aq.
+Proof.
+  intros H Hdec. unfold create_position in H.
+  destruct ((up <=? lo) || (lo <? TICK_MIN) || (TICK_MAX <? up)) eqn:Echk; [discriminate|].
+  assert (Hlt : lo < up) by lia.
+  repeat step_res H.
+  match goal with E : update_position ?s2 lo up ?d ?p = Ok (?s3, ?a1, ?a2, _, _) |- _ =>
+    rename E into Eup; set (S2 := s2) in *; rename s3 into sc; rename d into delta; rename a1 into ab'; rename a2 into aq' end.
+  match goal with E : send _ _ _ _ = Ok ?s4 |- _ => rename E into Esend; rename s4 into sd end.
+  match goal with E : (if has_position (a_pool s) then _ else _) = Ok ?s1 |- _ => rename E into Einit; rename s1 into sa end.
+  injection H as <- <- <- <- <-.
+  assert (Pa : a_positions sa = a_positions s).
+  { destruct (has_position (a_pool s)); [injection Einit as <-; reflexivity|]. repeat step_res Einit. injection Einit as <-. reflexivity. }
+  set (np0 := {| pos_id := a_next_id sa; pos_owner := sender; pos_lower := lo; pos_upper := up; pos_liq := 0 |}) in *.
+  assert (F2 : find_pos (a_positions S2) (a_next_id sa) = Some np0).
+  { unfold S2. cbn [a_positions set_next_id set_positions]. rewrite find_put_pos. cbn [pos_id np0]. rewrite Z.eqb_refl. reflexivity. }
+  assert (Hne : lo <> up) by lia.
+  destruct (update_position_spec _ _ _ _ _ _ _ _ _ _ Hne Eup)
+    as (pos' & Hf' & Hl0 & Hd & Ps & _ & _ & _ & _ & _ & _ & _ & _ & Pl).
+  rewrite F2 in Hf'. injection Hf' as <-. cbn [pos_liq np0] in Hl0, Ps.
+  assert (Hdpos : 0 < delta) by lia.
+  set (npd := {| pos_id := a_next_id sa; pos_owner := sender; pos_lower := lo; pos_upper := up; pos_liq := 0 + delta |}) in *.
+  assert (Psc : a_positions sc = put_pos (a_positions s) npd).
+  { rewrite Ps. unfold new_positions. destruct (Z.eqb_spec (0 + delta) 0); [lia|].
+    unfold S2. cbn [a_positions set_next_id set_positions pos_owner pos_lower pos_upper np0]. fold npd.
+    rewrite put_pos_twice by reflexivity. rewrite Pa. reflexivity. }
+  assert (Hsp : same_price (a_pool sa) (a_pool sc)).
+  { rewrite Pl. destruct (a_positions sc) eqn:Eps; [exfalso; symmetry in Psc; eapply put_pos_nonempty; exact Psc|].
+    change (a_pool S2) with (a_pool sa). destruct (Pool.in_range (a_pool sa) lo up); repeat split. }
+  destruct (update_position_frame _ _ _ _ _ _ _ _ _ _ Eup) as (_ & _ & ab0 & aq0 & Ecalc & -> & ->).
+  change (a_pool S2) with (a_pool sa) in Ecalc.
+  destruct (withdraw_le_deposit _ _ _ _ _ _ Hdpos Ecalc) as (wb0 & wq0 & Ew & Lb & Lq & _ & _).
+  destruct (send_bal _ _ _ _ _ Esend) as (_ & _ & _ & (Rp & Rpos & _)).
+  assert (Fd : find_pos (a_positions sd) (a_next_id sa) = Some npd).
+  { rewrite Rpos, Psc, find_put_pos. cbn [pos_id npd]. rewrite Z.eqb_refl. reflexivity. }
+  rewrite Fd in Hdec. cbn [pos_liq npd] in Hdec.
+  (* the withdrawal *)
+  unfold decrease_liquidity in Hdec. rewrite Fd in Hdec. cbn [pos_owner pos_liq pos_lower pos_upper npd] in Hdec.
+  repeat step_res Hdec.
+  match goal with E : collect_fees _ _ _ = Ok (?x1, _) |- _ => rename E into Ecf; rename x1 into se end.
+  match goal with E : update_position se _ _ _ _ = Ok _ |- _ => rename E into Eup2 end.
+  injection Hdec as _ <- <-.
+  destruct (collect_fees_same_book _ _ _ _ _ Ecf) as (_ & Q & _).
+  destruct (update_position_frame _ _ _ _ _ _ _ _ _ _ Eup2) as (_ & _ & wb1 & wq1 & Ecalc2 & -> & ->).
+  assert (Hsp2 : same_price (a_pool sa) (a_pool se)) by (rewrite Q, Rp; exact Hsp).
+  rewrite (calc_actual_same_price _ _ _ _ _ Hsp2) in Ecalc2.
+  replace (- (0 + delta)) with (- delta) in Ecalc2 by lia. rewrite Ew in Ecalc2. injection Ecalc2 as <- <-.
+  match goal with Eb : (dtrunc_int ab0 <? 0) || (dtrunc_int aq0 <? 0) = false |- _ => rename Eb into Hpos end.
+  lia.
+Qed.
+
+(* ------------------------------------------------------------------------------------------ *)
+(* 8. The run-time monitors decide exactly the predicates of the theorems                       *)
+(* ------------------------------------------------------------------------------------------ *)
+
+Lemma solvent_b_iff s : solvent_b s = true <-> Solvent s.
+Proof.
+  unfold solvent_b, Solvent. destruct (owed_total (a_pool s) (a_positions s)) as [[tb tq]|].
+  - split.
+    + intros H. exists tb, tq. split; [reflexivity|lia].
+    + intros (tb' & tq' & E & H1 & H2). injection E as <- <-. lia.
+  - split; [discriminate|]. intros (tb' & tq' & E & _). discriminate.
+Qed.
+Lemma len4_b_iff v : len4_b v = true <-> len4 v.
+Proof. unfold len4_b, len4. apply Nat.eqb_eq. Qed.
+Lemma wf_b_iff s : wf_b s = true <-> WF s.
+Proof.
+  unfold wf_b. rewrite !andb_true_iff, !len4_b_iff, !forallb_forall. split.
+  - intros (((((H1 & H2) & H3) & H4) & H5) & H6). constructor; try assumption.
+    + apply Forall_forall. intros t Ht. apply len4_b_iff. apply H5. exact Ht.
+    + apply Forall_forall. intros a Ha. specialize (H6 a Ha). rewrite andb_true_iff, !len4_b_iff in H6. exact H6.
+  - intros [H1 H2 H3 H4 H5 H6]. rewrite Forall_forall in H5, H6. repeat split; try assumption.
+    + intros t Ht. apply len4_b_iff. apply H5. exact Ht.
+    + intros a Ha. rewrite andb_true_iff, !len4_b_iff. apply H6. exact Ha.
+Qed.
+Lemma vnonneg_b_iff v : vnonneg_b v = true <-> vnonneg v.
+Proof.
+  unfold vnonneg_b, vnonneg. rewrite forallb_forall, Forall_forall. split; intros H x Hx; specialize (H x Hx); lia.
+Qed.
+Lemma bal_nonneg_b_iff s : bal_nonneg_b s = true <-> BalNonneg s.
+Proof. unfold bal_nonneg_b, BalNonneg. rewrite !andb_true_iff, !vnonneg_b_iff. tauto. Qed.
+
+(* ------------------------------------------------------------------------------------------ *)
+(* 9. Finding C02-F1: the faithful model refutes unconditional custody and exit liveness        *)
+(* ------------------------------------------------------------------------------------------ *)
+(* CalcAmountBaseDelta rounds its intermediate results half-even; at a sqrt price of 1e-9 half a
+   unit in the last place of the second quotient is worth a whole base unit.  One quote-only
+   position below the first price, two swaps selling base into it, and the pool account is one
+   unit short of what the only position is owed: it cannot withdraw.  The same history fails in
+   the same way on the implementation (harness scenario F1). *)
+Definition f1_pool : amm :=
+  fresh_pool 3000000000000000 {| price_ratio := 1100000000000000000; base_offset := 0 |} 0
+    vzero vzero [10 ^ 36; 10 ^ 36; 0; 0].
+Definition f1_ops : list op :=
+  [OCreate 0 (-475) (-440) (10 ^ 21) 1000 0 0;
+   OSwap true 0 1 333333333333333333333;
+   OSwap true 0 1 250000000000000000000].
+
+Lemma f1_reach0 : Reach0 f1_pool.
+Proof.
+  split; [apply fresh_pool_inv|]. split; [apply wf_b_iff; reflexivity|].
+  split; [apply bal_nonneg_b_iff; reflexivity|]. repeat split.
+Qed.
+Lemma f1_witness :
+  solvent_b (run f1_pool (firstn 2 f1_ops)) = true /\
+  solvent_b (run f1_pool f1_ops) = false /\
+  slack (run f1_pool f1_ops) = (-1, 2) /\
+  map pos_id (a_positions (run f1_pool f1_ops)) = [0] /\
+  drain (run f1_pool f1_ops) [0] = false.
+Proof. vm_compute. repeat split. Qed.
+
+Lemma f1_insolvent : solvent_b (run f1_pool f1_ops) = false.
+Proof. exact (proj1 (proj2 f1_witness)). Qed.
+Lemma f1_positions : map pos_id (a_positions (run f1_pool f1_ops)) = [0].
+Proof. exact (proj1 (proj2 (proj2 (proj2 f1_witness)))). Qed.
+Lemma f1_drain_fails : drain (run f1_pool f1_ops) [0] = false.
+Proof. exact (proj2 (proj2 (proj2 (proj2 f1_witness)))). Qed.
+
+Lemma custody_full_at_f1 : custody_full -> solvent_b (run f1_pool f1_ops) = true.
+Proof. intros H. exact (proj1 (H f1_pool f1_ops f1_reach0)). Qed.
+Theorem custody_full_refuted : ~ custody_full.
+Proof. intros H. pose proof (custody_full_at_f1 H) as Hs. rewrite f1_insolvent in Hs. discriminate. Qed.
+
+Lemma f1_perm : Permutation.Permutation [0] (map pos_id (a_positions (run f1_pool f1_ops))).
+Proof. rewrite f1_positions. apply Permutation.Permutation_refl. Qed.
+Lemma drain_full_at_f1 : drain_full -> drain (run f1_pool f1_ops) [0] = true.
+Proof. intros H. exact (H f1_pool f1_ops [0] f1_reach0 f1_perm). Qed.
+Theorem drain_full_refuted : ~ drain_full.
+Proof. intros H. pose proof (drain_full_at_f1 H) as Hd. rewrite f1_drain_fails in Hd. discriminate. Qed.
+
+(* ------------------------------------------------------------------------------------------ *)
+(* 10. Non-vacuity: a reachable two-position state satisfying every hypothesis used above        *)
+(* ------------------------------------------------------------------------------------------ *)
+Definition ex_pool : amm :=
+  fresh_pool 3000000000000000 {| price_ratio := 1000100000000000000; base_offset := 500000000000000000 |} 0
+    vzero vzero [10 ^ 12; 10 ^ 12; 0; 0].
+Definition ex_ops : list op :=
+  [OCreate 1 (-100) 100 1000000 1000000 0 0; OCreate 2 (-50) 200 500000 700000 0 0].
+Lemma ex_computed :
+  wf_b (run ex_pool ex_ops) = true /\ bal_nonneg_b (run ex_pool ex_ops) = true /\
+  solvent_b (run ex_pool ex_ops) = true /\ map pos_id (a_positions (run ex_pool ex_ops)) = [0; 1] /\
+  non_owner_op (run ex_pool ex_ops) (ODecrease 2 0 1) = true /\
+  custody_safe_op (run ex_pool ex_ops) (OClaim 1 [0]) = true /\
+  drain (run ex_pool ex_ops) [1; 0] = true /\ drain (run ex_pool ex_ops) [0; 1] = true.
+Proof. vm_compute. repeat split. Qed.
+Lemma ex_reach0 : Reach0 ex_pool.
+Proof.
+  split; [apply fresh_pool_inv|]. split; [apply wf_b_iff; reflexivity|].
+  split; [apply bal_nonneg_b_iff; reflexivity|]. repeat split.
+Qed.
+Lemma ex_inv : Inv (run ex_pool ex_ops).
+Proof. apply reach_inv_positions; [apply fresh_pool_inv|reflexivity]. Qed.
+Lemma nonvacuous_example :
+  Reach0 ex_pool /\ Inv (run ex_pool ex_ops) /\ WF (run ex_pool ex_ops) /\ BalNonneg (run ex_pool ex_ops) /\
+  Solvent (run ex_pool ex_ops) /\ map pos_id (a_positions (run ex_pool ex_ops)) = [0; 1] /\
+  non_owner_op (run ex_pool ex_ops) (ODecrease 2 0 1) = true /\
+  custody_safe_op (run ex_pool ex_ops) (OClaim 1 [0]) = true /\
+  drain (run ex_pool ex_ops) [1; 0] = true /\ drain (run ex_pool ex_ops) [0; 1] = true.
+Proof.
+  split; [exact ex_reach0|]. split; [exact ex_inv|].
+  split; [apply wf_b_iff; exact (proj1 ex_computed)|].
+  split; [apply bal_nonneg_b_iff; exact (proj1 (proj2 ex_computed))|].
+  split; [apply solvent_b_iff; exact (proj1 (proj2 (proj2 ex_computed)))|].
+  exact (proj2 (proj2 (proj2 ex_computed))).
+Qed.
+
+(* ------------------------------------------------------------------------------------------ *)
+(* 11. Frame: a message leaves every position (and its fee-accumulator record) of any other       *)
+(*     owner exactly as it was                                                                    *)
+(* ------------------------------------------------------------------------------------------ *)
+Definition untouched (s s' : amm) (j : Z) : Prop :=
+  find_pos (a_positions s') j = find_pos (a_positions s) j /\
+  find_ap (a_acc_pos s') j = find_ap (a_acc_pos s) j.
+Lemma untouched_refl s j : untouched s s j.
+Proof. split; reflexivity. Qed.
+Lemma untouched_trans a b c j : untouched a b j -> untouched b c j -> untouched a c j.
+Proof. intros [A1 A2] [B1 B2]. split; congruence. Qed.
+
+Lemma find_pos_del_other l i j : i <> j -> find_pos (del_pos l i) j = find_pos l j.
+Proof.
+  intros N. induction l as [|x l IH]; cbn [del_pos find_pos]; [reflexivity|].
+  destruct (Z.eqb_spec (pos_id x) i) as [E|E].
+  - destruct (Z.eqb_spec (pos_id x) j); [lia|reflexivity].
+  - cbn [find_pos]. rewrite IH. reflexivity.
+Qed.
+Lemma find_ap_put l p i : find_ap (put_ap l p) i = if i =? ap_id p then Some p else find_ap l i.
+Proof.
+  induction l as [|x l IH]; cbn [put_ap find_ap].
+  - rewrite (Z.eqb_sym (ap_id p) i). reflexivity.
+  - destruct (Z.eqb_spec (ap_id x) (ap_id p)) as [E|E].
+    + cbn [find_ap]. rewrite (Z.eqb_sym (ap_id p) i).
+      destruct (Z.eqb_spec i (ap_id p)); [reflexivity|].
+      destruct (Z.eqb_spec (ap_id x) i); [lia|reflexivity].
+    + destruct (Z.ltb_spec (ap_id p) (ap_id x)).
+      * cbn [find_ap]. rewrite (Z.eqb_sym (ap_id p) i). destruct (Z.eqb_spec i (ap_id p)); reflexivity.
+      * cbn [find_ap]. destruct (Z.eqb_spec (ap_id x) i).
+        -- destruct (Z.eqb_spec i (ap_id p)); [lia|reflexivity].
+        -- apply IH.
+Qed.
+Lemma find_ap_del_other l i j : i <> j -> find_ap (del_ap l i) j = find_ap l j.
+Proof.
+  intros N. induction l as [|x l IH]; cbn [del_ap find_ap]; [reflexivity|].
+  destruct (Z.eqb_spec (ap_id x) i) as [E|E].
+  - destruct (Z.eqb_spec (ap_id x) j); [lia|reflexivity].
+  - cbn [find_ap]. rewrite IH. reflexivity.
+Qed.
+
+Lemma same_rest_untouched s s' j : same_rest s s' -> untouched s s' j.
+Proof. intros (_ & P & _ & _ & _ & A & _). split; [rewrite P|rewrite A]; reflexivity. Qed.
+Lemma send_untouched s from to am s' j : send s from to am = Ok s' -> untouched s s' j.
+Proof. intros H. apply same_rest_untouched. apply (send_bal _ _ _ _ _ H). Qed.
+
+Lemma prepare_claim_untouched s pid s1 c j : prepare_claim s pid = Ok (s1, c) -> j <> pid -> untouched s s1 j.
+Proof.
+  intros H N. unfold prepare_claim in H.
+  destruct (find_pos (a_positions s) pid) as [pos|]; [|discriminate].
+  destruct (find_ap (a_acc_pos s) pid) as [ap0|]; [|discriminate].
+  step_res H. step_res H. step_res H. unfold vtrunc in H. step_res H.
+  match type of H with context [if ?c then set_acc_pos s ?l1 else set_acc_pos s ?l2] =>
+    set (s1' := if c then set_acc_pos s l1 else set_acc_pos s l2) in * end.
+  assert (U : untouched s s1' j).
+  { unfold s1'. match goal with |- context [if ?c then _ else _] => destruct c end;
+      (split; [reflexivity|]); cbn [a_acc_pos set_acc_pos].
+    - apply find_ap_del_other. lia.
+    - rewrite find_ap_put. cbn [ap_id]. destruct (Z.eqb_spec j pid); [lia|reflexivity]. }
+  destruct (vis_zero _); [injection H as <- _; exact U|].
+  destruct (a_acc_shares s1' =? 0); [injection H as <- _; exact U|].
+  step_res H. step_res H. injection H as <- _. exact U.
+Qed.
+Lemma collect_fees_untouched s sender pid s1 c j : collect_fees s sender pid = Ok (s1, c) -> j <> pid -> untouched s s1 j.
+Proof.
+  intros H N. unfold collect_fees in H. repeat step_res H; injection H as <- _.
+  - eapply prepare_claim_untouched; eassumption.
+  - eapply untouched_trans; [eapply prepare_claim_untouched; eassumption|eapply send_untouched; eassumption].
+Qed.
+Lemma set_accum_position_untouched s lo up pid d s' j : set_accum_position s lo up pid d = Ok s' -> j <> pid ->
+  untouched s s' j.
+Proof.
+  intros H N. pose proof (set_accum_position_spec _ _ _ _ _ _ H) as (P & _).
+  split; [rewrite P; reflexivity|].
+  unfold set_accum_position in H. cbn [ap_shares] in H.
+  repeat step_res H; injection H as <-; cbn [a_acc_pos set_acc set_acc_pos];
+  rewrite find_ap_put; cbn [ap_id]; (destruct (Z.eqb_spec j pid); [lia|reflexivity]).
+Qed.
+Lemma update_position_untouched s lo up d pid s' ab aq le ue j :
+  update_position s lo up d pid = Ok (s', ab, aq, le, ue) -> j <> pid -> untouched s s' j.
+Proof.
+  intros H N. unfold update_position in H.
+  rb H r1 E1. destruct r1 as [s1 le']. apply of_opt_ok in E1.
+  rb H r2 E2. destruct r2 as [s2 ue']. apply of_opt_ok in E2.
+  destruct (upsert_tick_spec _ _ _ _ _ _ E1) as (P1 & _ & _ & _ & A1 & _).
+  destruct (upsert_tick_spec _ _ _ _ _ _ E2) as (P2 & _ & _ & _ & A2 & _).
+  destruct (find_pos (a_positions s2) pid) as [pos|]; [|discriminate].
+  rb H liq E3. destruct (liq <? 0); [discriminate|].
+  rb H amts E4. destruct amts as [ab0 aq0].
+  set (s3 := if liq =? 0 then set_positions s2 (del_pos (a_positions s2) pid)
+             else set_positions s2 (put_pos (a_positions s2)
+                    {| pos_id := pid; pos_owner := pos_owner pos; pos_lower := pos_lower pos;
+                       pos_upper := pos_upper pos; pos_liq := liq |})) in *.
+  rb H s4 E5. rb H s5 E6. injection H as <- _ _ _ _.
+  assert (U3 : untouched s s3 j).
+  { unfold s3. destruct (liq =? 0); (split; cbn [a_positions a_acc_pos set_positions]; [|rewrite A2, A1; reflexivity]).
+    - rewrite find_pos_del_other by lia. rewrite P2, P1. reflexivity.
+    - rewrite find_put_pos. cbn [pos_id]. destruct (Z.eqb_spec j pid); [lia|]. rewrite P2, P1. reflexivity. }
+  assert (U4 : untouched s3 s4 j).
+  { destruct (a_positions s3).
+    - injection E5 as <-. split; reflexivity.
+    - destruct (Pool.in_range (a_pool s2) lo up).
+      + rb E5 lq E7. injection E5 as <-. split; reflexivity.
+      + injection E5 as <-. split; reflexivity. }
+  eapply untouched_trans; [exact U3|]. eapply untouched_trans; [exact U4|].
+  eapply set_accum_position_untouched; eassumption.
+Qed.
+
+Lemma decrease_untouched s sender pid l s' b q j :
+  decrease_liquidity s sender pid l = Ok (s', b, q) -> j <> pid -> untouched s s' j.
+Proof.
+  intros H N. unfold decrease_liquidity in H.
+  destruct (find_pos (a_positions s) pid) as [pos|]; [|discriminate].
+  repeat step_res H.
+  match goal with E : collect_fees _ _ _ = Ok _ |- _ => pose proof (collect_fees_untouched _ _ _ _ _ j E N) as U1 end.
+  match goal with E : update_position _ _ _ _ _ = Ok _ |- _ => pose proof (update_position_untouched _ _ _ _ _ _ _ _ _ _ j E N) as U2 end.
+  match goal with E : send _ _ _ _ = Ok _ |- _ => pose proof (send_untouched _ _ _ _ _ j E) as U3 end.
+  injection H as <- _ _.
+  eapply untouched_trans; [exact U1|]. eapply untouched_trans; [exact U2|]. eapply untouched_trans; [exact U3|].
+  match goal with |- untouched _ (if ?u then _ else _) _ => destruct u end;
+  match goal with |- context [if ?l then _ else _] => destruct l end; split; reflexivity.
+Qed.
+
+Lemma create_untouched s sender lo up base quote mb mq s' r j :
+  create_position s sender lo up base quote mb mq = Ok (s', r) -> j < a_next_id s -> untouched s s' j.
+Proof.
+  intros H N. unfold create_position in H. repeat step_res H.
+  match goal with E : update_position ?s2 lo up _ ?pid = Ok (?s3, _, _, _, _) |- _ =>
+    rename E into Eup; set (S2 := s2) in *; rename s3 into sc end.
+  match goal with E : send _ _ _ _ = Ok ?s4 |- _ => rename E into Esend; rename s4 into sd end.
+  match goal with E : (if has_position (a_pool s) then _ else _) = Ok ?s1 |- _ => rename E into Einit; rename s1 into sa end.
+  injection H as <- _.
+  assert (Ua : untouched s sa j /\ a_next_id sa = a_next_id s).
+  { destruct (has_position (a_pool s)); [injection Einit as <-; split; [apply untouched_refl|reflexivity]|].
+    repeat step_res Einit. injection Einit as <-. split; [split; reflexivity|reflexivity]. }
+  destruct Ua as [Ua Na].
+  assert (U2 : untouched sa S2 j).
+  { unfold S2. split; cbn [a_positions a_acc_pos set_next_id set_positions]; [|reflexivity].
+    rewrite find_put_pos. cbn [pos_id]. destruct (Z.eqb_spec j (a_next_id sa)); [lia|reflexivity]. }
+  assert (Nj : j <> a_next_id sa) by lia.
+  pose proof (update_position_untouched _ _ _ _ _ _ _ _ _ _ j Eup Nj) as U3.
+  pose proof (send_untouched _ _ _ _ _ j Esend) as U4.
+  eapply untouched_trans; [exact Ua|]. eapply untouched_trans; [exact U2|]. eapply untouched_trans; [exact U3|exact U4].
+Qed.
+
+Lemma update_position_next_id s lo up d pid s' ab aq le ue :
+  update_position s lo up d pid = Ok (s', ab, aq, le, ue) -> a_next_id s' = a_next_id s.
+Proof.
+  intros H. unfold update_position in H.
+  rb H r1 E1. destruct r1 as [s1 le']. apply of_opt_ok in E1.
+  rb H r2 E2. destruct r2 as [s2 ue']. apply of_opt_ok in E2.
+  destruct (upsert_tick_spec _ _ _ _ _ _ E1) as (_ & _ & _ & _ & _ & Nx1 & _).
+  destruct (upsert_tick_spec _ _ _ _ _ _ E2) as (_ & _ & _ & _ & _ & Nx2 & _).
+  destruct (find_pos (a_positions s2) pid) as [pos|]; [|discriminate].
+  rb H liq E3. destruct (liq <? 0); [discriminate|].
+  rb H amts E4. destruct amts as [ab0 aq0].
+  set (s3 := if liq =? 0 then set_positions s2 (del_pos (a_positions s2) pid)
+             else set_positions s2 (put_pos (a_positions s2)
+                    {| pos_id := pid; pos_owner := pos_owner pos; pos_lower := pos_lower pos;
+                       pos_upper := pos_upper pos; pos_liq := liq |})) in *.
+  rb H s4 E5. rb H s5 E6. injection H as <- _ _ _ _.
+  destruct (set_accum_position_spec _ _ _ _ _ _ E6) as (_ & _ & _ & N5 & _).
+  assert (N3 : a_next_id s3 = a_next_id s2) by (unfold s3; destruct (liq =? 0); reflexivity).
+  assert (N4 : a_next_id s4 = a_next_id s3).
+  { destruct (a_positions s3).
+    - injection E5 as <-. reflexivity.
+    - destruct (Pool.in_range (a_pool s2) lo up).
+      + rb E5 lq E7. injection E5 as <-. reflexivity.
+      + injection E5 as <-. reflexivity. }
+  congruence.
+Qed.
+Lemma decrease_next_id s sender pid l s' b q : decrease_liquidity s sender pid l = Ok (s', b, q) -> a_next_id s' = a_next_id s.
+Proof.
+  intros H. unfold decrease_liquidity in H.
+  destruct (find_pos (a_positions s) pid) as [pos|]; [|discriminate].
+  repeat step_res H.
+  match goal with E : collect_fees _ _ _ = Ok _ |- _ => destruct (collect_fees_same_book _ _ _ _ _ E) as (_ & _ & _ & _ & N1) end.
+  match goal with E : update_position _ _ _ _ _ = Ok _ |- _ => pose proof (update_position_next_id _ _ _ _ _ _ _ _ _ _ E) as N2 end.
+  match goal with E : send _ _ _ _ = Ok _ |- _ => destruct (send_same_book _ _ _ _ _ E) as (_ & _ & _ & _ & N3) end.
+  injection H as <- _ _.
+  match goal with |- a_next_id (if ?u then _ else _) = _ => destruct u end;
+  match goal with |- context [if ?l then _ else _] => destruct l end;
+  cbn [a_next_id set_ticks]; congruence.
+Qed.
+
+Lemma increase_untouched s sender pid ab aq mb mq s' r j :
+  increase_liquidity s sender pid ab aq mb mq = Ok (s', r) -> j <> pid -> j < a_next_id s -> untouched s s' j.
+Proof.
+  intros H N Nj. unfold increase_liquidity in H.
+  destruct (find_pos (a_positions s) pid) as [pos|]; [|discriminate].
+  repeat step_res H.
+  match goal with E : decrease_liquidity _ _ _ _ = Ok _ |- _ =>
+    pose proof (decrease_untouched _ _ _ _ _ _ _ j E N) as U1; pose proof (decrease_next_id _ _ _ _ _ _ _ E) as N1 end.
+  eapply untouched_trans; [exact U1|]. eapply create_untouched; [exact H|lia].
+Qed.
+
+Lemma claim_loop_untouched ids : forall s sender tot s' c j,
+  claim_rewards_loop s sender ids tot = Ok (s', c) -> ~ In j ids -> untouched s s' j.
+Proof.
+  induction ids as [|i tl IH]; cbn [claim_rewards_loop]; intros s sender tot s' c j H N.
+  - injection H as <- _. apply untouched_refl.
+  - repeat step_res H. eapply untouched_trans.
+    + eapply collect_fees_untouched; [eassumption|]. intros ->. apply N. left. reflexivity.
+    + eapply IH; [exact H|]. intros Hin. apply N. right. exact Hin.
+Qed.
+
+Lemma send_one_raw_untouched s from to d a s' j : send_one_raw s from to d a = Ok s' -> untouched s s' j.
+Proof. unfold send_one_raw. destruct (a <=? 0); [discriminate|]. apply send_untouched. Qed.
+
+Lemma swap_untouched s ei di do_ sp fe s' i o j : swap s ei di do_ sp fe = Ok (s', i, o) -> untouched s s' j.
+Proof.
+  intros H. unfold swap in H. repeat step_res H.
+  repeat match goal with
+  | E : send_one_raw _ _ _ _ _ = Ok _ |- _ => apply (send_one_raw_untouched _ _ _ _ _ _ j) in E
+  end.
+  injection H as <- _ _.
+  match goal with E : (if ?c then Ok ?a else send_one_raw ?a _ _ _ _) = Ok ?b |- _ =>
+    assert (U3 : untouched a b j) by (destruct c; [injection E as <-; apply untouched_refl|eapply send_one_raw_untouched; exact E]) end.
+  match goal with U1 : untouched (set_acc (set_ticks s _) _ _) ?a j |- _ =>
+    assert (U0 : untouched s a j) by (destruct U1 as [A B]; split; [exact A|exact B]) end.
+  match goal with U4 : untouched ?c ?d j |- untouched s (set_pool ?d _) j =>
+    eapply untouched_trans; [exact U0|]; eapply untouched_trans; [exact U3|]; destruct U4 as [A B]; split; [exact A|exact B] end.
+Qed.
+
+Lemma allocate_untouched s coins s' j : allocate_incentive s coins = Ok s' -> untouched s s' j.
+Proof.
+  intros H. unfold allocate_incentive in H. repeat step_res H.
+  apply (send_untouched _ _ _ _ _ j) in H. destruct H as [A B]. split; [exact A|exact B].
+Qed.
+
+(* only a position's owner can reduce it or claim for it, as a frame property of the whole state
+   machine: whatever message is executed, a position whose owner is not the sender (and the record
+   of its accrued fees) is exactly what it was *)
+Theorem others_untouched s o pos :
+  Inv s -> In pos (a_positions s) -> (forall x, op_sender o = Some x -> pos_owner pos <> x) ->
+  untouched s (fst (step s o)) (pos_id pos).
+Proof.
+  intros [[Hc _] _] Hin Hown.
+  assert (Hf : find_pos (a_positions s) (pos_id pos) = Some pos).
+  { apply in_find_sorted; [destruct Hc; assumption|exact Hin]. }
+  assert (Hfresh : pos_id pos < a_next_id s).
+  { destruct Hc as [_ _ H3 _ _ _ _ _ _ _]. rewrite Forall_forall in H3. apply H3. exact Hin. }
+  unfold step. destruct o as [sender lo up b q mb mq|sender pid b q mb mq|sender pid l|sender ids|ei di do_ sp|coins].
+  - destruct (create_position s sender lo up b q mb mq) as [[s' [[[id ab] aq] l]]| |] eqn:E; cbn [fst]; try apply untouched_refl.
+    eapply create_untouched; eassumption.
+  - destruct (increase_liquidity s sender pid b q mb mq) as [[s' [[[id ab] aq] l]]| |] eqn:E; cbn [fst]; try apply untouched_refl.
+    destruct (Z.eq_dec (pos_id pos) pid) as [Ep|Ep].
+    + exfalso. assert (Hn : not_owned s sender pid = true).
+      { unfold not_owned. rewrite <- Ep, Hf. specialize (Hown sender eq_refl). lia. }
+      rewrite (increase_not_owner _ _ _ _ _ _ _ Hn) in E. discriminate.
+    + eapply increase_untouched; eassumption.
+  - destruct (decrease_liquidity s sender pid l) as [[[s' b] q]| |] eqn:E; cbn [fst]; try apply untouched_refl.
+    destruct (Z.eq_dec (pos_id pos) pid) as [Ep|Ep].
+    + exfalso. assert (Hn : not_owned s sender pid = true).
+      { unfold not_owned. rewrite <- Ep, Hf. specialize (Hown sender eq_refl). lia. }
+      rewrite (decrease_not_owner _ _ _ _ Hn) in E. discriminate.
+    + eapply decrease_untouched; eassumption.
+  - destruct (msg_claim_rewards s sender ids) as [[s' c]| |] eqn:E; cbn [fst]; try apply untouched_refl.
+    destruct (in_dec Z.eq_dec (pos_id pos) ids) as [Hi|Hi].
+    + exfalso. assert (Hn : existsb (not_owned s sender) ids = true).
+      { apply existsb_exists. exists (pos_id pos). split; [exact Hi|].
+        unfold not_owned. rewrite Hf. specialize (Hown sender eq_refl). lia. }
+      pose proof (claim_loop_not_owner sender ids s vzero Hn) as Hc'.
+      unfold msg_claim_rewards in E. destruct ids; [discriminate|]. rewrite E in Hc'. discriminate.
+    + unfold msg_claim_rewards in E. destruct ids; [discriminate|]. eapply claim_loop_untouched; eassumption.
+  - destruct (swap s ei di do_ sp true) as [[[s' i] o']| |] eqn:E; cbn [fst]; try apply untouched_refl.
+    eapply swap_untouched; eassumption.
+  - destruct (allocate_incentive s coins) as [s'| |] eqn:E; cbn [fst]; try apply untouched_refl.
+    eapply allocate_untouched; eassumption.
 Qed.
